@@ -242,7 +242,36 @@ func runR09_2(c *Ctx, r *R) {
 	// closeChannels' Range callback deletes and frees
 	if f := r.Need("mpx", "conn.closeChannels"); f != nil {
 		found := false
-		for _, a := range f.AnonFuncs {
+		// the callback handed to channels.Range: a function literal, a method value (c.closeChannel) or a function
+		var callbacks []*ssa.Function
+		callbacks = append(callbacks, f.AnonFuncs...)
+		for _, call := range callsIn(f, false) {
+			if calleeLabel(call) != "channels.Range" {
+				continue
+			}
+			for _, a := range call.Common().Args {
+				var g *ssa.Function
+				switch x := a.(type) {
+				case *ssa.MakeClosure:
+					g, _ = x.Fn.(*ssa.Function)
+				case *ssa.Function:
+					g = x
+				}
+				if g == nil {
+					continue
+				}
+				callbacks = append(callbacks, g)
+				// a bound-method wrapper: the method it forwards to
+				if g.Synthetic != "" {
+					for _, c2 := range callsIn(g, false) {
+						if h := c2.Common().StaticCallee(); h != nil && h.Blocks != nil {
+							callbacks = append(callbacks, h)
+						}
+					}
+				}
+			}
+		}
+		for _, a := range callbacks {
 			lbls := map[string]bool{}
 			for _, call := range callsIn(a, false) {
 				lbls[calleeLabel(call)] = true
